@@ -55,6 +55,18 @@ def preprocess(src_dir, header):
     return p.stdout
 
 
+PROTO_SKIP = {"glad.h", "display.h", "communication_mpi.h"}
+
+
+def preprocess_with(src_dir, header):
+    """a secondary header, preprocessed after rebound.h (they rely on it)"""
+    p = subprocess.run(["gcc", "-E", "-P", "-std=c99"] + DEFS + ["-include", "rebound.h", header], cwd=src_dir,
+                       capture_output=True, text=True)
+    if p.returncode != 0:
+        raise Infra("gcc -E %s failed: %s" % (header, p.stderr[:500]))
+    return p.stdout
+
+
 def _match(toks, i, open_, close):
     """index just after the bracket group starting at toks[i] == open_"""
     d = 0
@@ -107,6 +119,7 @@ class CParser:
         self.structs = {}     # name -> [member dict]   (insertion ordered)
         self.enums = {}       # name -> [enumerator names]
         self.functions = []   # declared function names (top level, reb_*)
+        self.protos = {}      # name -> (return type tokens, [parameter token lists])
 
     def run(self):
         t, i, n = self.t, 0, len(self.t)
@@ -131,6 +144,10 @@ class CParser:
                     j = _match(t, i, "(", ")")
                     if j < n and t[j] in (";", "{", "__attribute__"):
                         self.functions.append(t[i - 1])
+                        b = i - 2
+                        while b >= 0 and t[b] not in (";", "}", "{"):
+                            b -= 1
+                        self.protos.setdefault(t[i - 1], (t[b + 1:i - 1], _split_top(t[i + 1:j - 1])))
                 i = _match(t, i, "(", ")")
             else:
                 i += 1
@@ -205,7 +222,7 @@ class CParser:
                 params = _split_top(ch[q + 1:r - 1])
                 if params == [["void"]] or params == [[]]:
                     params = []
-                m.update(fptr=True, name=inside[1], params=len(params))
+                m.update(fptr=True, name=inside[1], params=len(params), param_toks=params, ret_toks=list(specs))
                 tail = []
             else:
                 body = list(ch)
@@ -302,10 +319,109 @@ def gen_probe(structs, enums, paths):
     return "\n".join(L) + "\n"
 
 
+TYPEKW = {"int", "char", "double", "float", "long", "short", "unsigned", "signed", "void", "_Bool"}
+STORAGE = {"extern", "static", "inline", "__inline", "__inline__", "DLLEXPORT"}
+
+
+def parse_type(toks, param=True):
+    """a parameter / return type as (kindspec) where kindspec is resolved later by type_kind:
+    {"base": ("struct"|"enum"|"scalar", text) , "stars": n} | {"fptr": (ret, nparams)} | {"variadic": True}"""
+    toks = [x for x in _strip_attr(list(toks)) if x not in QUALS and x not in STORAGE]
+    if toks == ["..."]:
+        return {"variadic": True}
+    if "(" in toks:
+        p = toks.index("(")
+        q = _match(toks, p, "(", ")")
+        inside = toks[p + 1:q - 1]
+        if inside and inside[0] == "*" and q < len(toks) and toks[q] == "[":
+            # pointer to array  T (*x)[n]  : modelled as pointer to T
+            return parse_type(toks[:p] + ["*"], param=False)
+        if not inside or inside[0] != "*" or q >= len(toks) or toks[q] != "(":
+            raise ParseError("parameter declarator: " + " ".join(toks))
+        r = _match(toks, q, "(", ")")
+        ps = _split_top(toks[q + 1:r - 1])
+        if ps == [["void"]] or ps == [[]]:
+            ps = []
+        return {"fptr": (parse_type(toks[:p], param=False), [parse_type(x) for x in ps])}
+    stars = 0
+    while toks and toks[-1] == "]":
+        o = len(toks) - 1
+        while toks[o] != "[":
+            o -= 1
+        toks = toks[:o]
+        stars += 1
+    if param and len(toks) >= 2 and re.match(r"[A-Za-z_]\w*$", toks[-1]) and toks[-1] not in TYPEKW \
+            and toks[-2] not in ("struct", "enum", "union"):
+        toks = toks[:-1]
+    stars += toks.count("*")
+    specs = [x for x in toks if x != "*"]
+    if not specs:
+        raise ParseError("empty type")
+    if specs[0] in ("struct", "union"):
+        return {"base": ("struct", specs[1]), "stars": stars}
+    if specs[0] == "enum":
+        return {"base": ("enum", specs[1]), "stars": stars}
+    return {"base": ("scalar", " ".join(specs)), "stars": stars}
+
+
+def collect_scalar_texts(ty, acc):
+    if "fptr" in ty:
+        collect_scalar_texts(ty["fptr"][0], acc)
+        for x in ty["fptr"][1]:
+            collect_scalar_texts(x, acc)
+    elif "base" in ty and ty["base"][0] in ("scalar", "enum") and ty["base"][1] != "void":
+        acc.add(("enum " if ty["base"][0] == "enum" else "") + ty["base"][1])
+
+
+def type_probe(src, workdir, texts, extra_headers=()):
+    texts = sorted(texts)
+    L = ["#include <stdio.h>", "#include <stddef.h>"] + ['#include "%s"' % h for h in list(HEADERS) + list(extra_headers)] + ["int main(void){"]
+    for i, t in enumerate(texts):
+        L.append("{ %s v; printf(\"%d\\t%%zu\\t%%s\\t%%d\\n\", sizeof(v), %s, (int)%s); }" % (t, i, GENERIC % "v", SIGNED % "v"))
+    L.append("return 0;}")
+    cfile = os.path.join(workdir, "c18_types.c")
+    with open(cfile, "w") as f:
+        f.write("\n".join(L) + "\n")
+    exe = os.path.join(workdir, "c18_types")
+    p = subprocess.run(["gcc", "-std=gnu11", "-w", "-O0"] + DEFS + ["-I", src, cfile, "-o", exe], capture_output=True, text=True)
+    if p.returncode != 0:
+        raise Infra("C18 type probe does not compile: " + p.stderr[:2000])
+    out = {}
+    for line in subprocess.run([exe], capture_output=True, text=True).stdout.splitlines():
+        i, size, g, sg = line.split("\t")
+        out[texts[int(i)]] = (int(size), g, int(sg))
+    return out
+
+
+def type_kind(ty, tp):
+    if ty.get("variadic"):
+        return ["opaque", "..."]
+    if "fptr" in ty:
+        return ["fptr", type_kind(ty["fptr"][0], tp), len(ty["fptr"][1])]
+    b, stars = ty["base"], ty["stars"]
+    if b[0] == "struct":
+        k = ["struct", b[1]]
+    elif b == ("scalar", "void"):
+        k = ["void"]
+    else:
+        size, g, sg = tp[("enum " if b[0] == "enum" else "") + b[1]]
+        if b[0] == "enum":
+            k = ["enm", b[1], bool(sg), size]
+        elif g in ("i", "u"):
+            k = ["int", bool(sg), size]
+        elif g in ("f64", "f32", "chr"):
+            k = [g]
+        else:
+            k = ["opaque", b[1]]
+    for _ in range(stars):
+        k = ["ptr", k]
+    return k
+
+
 def c_side(d, workdir, extra_tags=()):
     """-> dict(structs={name:{size,align,members:[{name,off,size,kind}]}}, enums={name:[(n,v)]}, functions=[...])"""
     src = os.path.join(d, "src")
-    structs, enums, functions = {}, {}, []
+    structs, enums, functions, protos = {}, {}, [], {}
     for h in HEADERS:
         p = CParser(tokenize(preprocess(src, h)),
                     want=lambda tag: tag.startswith("reb_") or tag.startswith("REB_") or tag in extra_tags).run()
@@ -314,6 +430,20 @@ def c_side(d, workdir, extra_tags=()):
                 structs[k] = v
         enums.update(p.enums)
         functions += p.functions
+        for k, v in p.protos.items():
+            protos.setdefault(k, v)
+    # exported functions declared in the other headers of src/ (Python also calls some of those)
+    extra_headers = []
+    for h in sorted(os.listdir(src)):
+        if h.endswith(".h") and h not in HEADERS and h not in PROTO_SKIP:
+            try:
+                p2 = CParser(tokenize(preprocess_with(src, h)), want=lambda tag: False).run()
+            except (Infra, ParseError):
+                continue
+            new = {k: v for k, v in p2.protos.items() if k not in protos}
+            if new:
+                extra_headers.append(h)
+                protos.update(new)
     # access paths for anonymous inline structs
     paths = {s: (s, "") for s in structs}
     changed = True
@@ -395,7 +525,31 @@ def c_side(d, workdir, extra_tags=()):
                     k = ["arr", k, z["count"]]
             rows.append(dict(name=m["name"], off=z["off"], size=z["size"], kind=k))
         out[s] = dict(size=sizes[s][0], align=sizes[s][1], members=rows)
-    return dict(structs=out, enums=evals, functions=sorted(set(functions)))
+    # ---- full signatures: exported functions and callback members
+    ptypes, cbtypes, texts = {}, [], set()
+    for fn, (rt, params) in protos.items():
+        if params == [["void"]] or params == [[]]:
+            params = []
+        try:
+            ptypes[fn] = (parse_type(rt, param=False), [parse_type(x) for x in params])
+        except (ParseError, IndexError, ValueError) as e:
+            raise ParseError("prototype of %s: %s" % (fn, e))
+        collect_scalar_texts(ptypes[fn][0], texts)
+        for x in ptypes[fn][1]:
+            collect_scalar_texts(x, texts)
+    for sname, mem in structs.items():
+        for m in mem:
+            if m["fptr"]:
+                rt = parse_type(m["ret_toks"], param=False)
+                ps = [parse_type(x) for x in m["param_toks"]]
+                cbtypes.append((sname, m["name"], rt, ps))
+                collect_scalar_texts(rt, texts)
+                for x in ps:
+                    collect_scalar_texts(x, texts)
+    tp = type_probe(src, workdir, texts, extra_headers)
+    cprotos = {fn: dict(ret=type_kind(r, tp), args=[type_kind(x, tp) for x in ps]) for fn, (r, ps) in sorted(ptypes.items())}
+    ccallbacks = [dict(struct=sn, member=mn, ret=type_kind(r, tp), args=[type_kind(x, tp) for x in ps]) for sn, mn, r, ps in cbtypes]
+    return dict(structs=out, enums=evals, functions=sorted(set(functions)), protos=cprotos, callbacks=ccallbacks)
 
 
 def dwarf_offsets(d, workdir, names):
@@ -610,19 +764,141 @@ for cname, c in list(classes.items()):
                     tgt = sorted({a.attr for st in sub.body for a in ast.walk(st) if isinstance(a, ast.Attribute) and isinstance(a.value, ast.Name) and a.value.id == "self" and isinstance(getattr(a, "ctx", None), ast.Store)})
                     if syms:
                         fnopts.append(dict(cls=cname, prop=node.name, name=lit, symbols=syms, stores=tgt))
+            # … or a module-level table  name -> C symbol  looked up with getattr(clibrebound, TABLE[func])
+            mod = sys.modules.get(cls.__module__)
+            for nm_ in sorted(names):
+                tab = getattr(mod, nm_, None)
+                if isinstance(tab, dict) and tab and all(isinstance(k, str) and isinstance(v, str) and v.startswith("reb_") for k, v in tab.items()):
+                    for k, v in tab.items():
+                        fnopts.append(dict(cls=cname, prop=node.name, name=k, symbols=[v], stores=[], table=nm_))
 out["props"] = props
 out["fnopts"] = fnopts
+# ---- callback members: full CFUNCTYPE signatures
+callbacks = []
+for cname, cv in classes.items():
+    cls = None
+    for m in mods:
+        if isinstance(getattr(m, cname, None), type):
+            cls = getattr(m, cname); break
+    if cls is None: continue
+    for f in getattr(cls, "_fields_", []):
+        t = f[1]
+        if isinstance(t, type) and issubclass(t, ctypes._CFuncPtr):
+            callbacks.append(dict(cls=cname, field=f[0], ret=(["void"] if t._restype_ is None else kind(t._restype_)),
+                                  args=[kind(a) for a in (t._argtypes_ or ())]))
+out["callbacks"] = callbacks
+
+# ---- foreign calls: every `clibrebound.X.restype/argtypes = ...` and every `clibrebound.X(...)` in the package (AST)
+import re as _re
+WRAP = {"c_double": ["f64"], "c_float": ["f32"], "c_int": ["int", True, 4], "c_uint": ["int", False, 4], "c_uint32": ["int", False, 4],
+        "c_int32": ["int", True, 4], "c_int64": ["int", True, 8], "c_uint64": ["int", False, 8], "c_size_t": ["int", False, 8],
+        "c_long": ["int", True, 8], "c_ulong": ["int", False, 8], "c_char_p": ["ptr", ["chr"]], "c_void_p": ["ptr", ["void"]],
+        "byref": ["ptr", ["void"]], "pointer": ["ptr", ["void"]], "create_string_buffer": ["ptr", ["chr"]]}
+def argkind(a):
+    if isinstance(a, ast.Call):
+        f = a.func
+        nm = f.id if isinstance(f, ast.Name) else (f.attr if isinstance(f, ast.Attribute) else None)
+        if nm in WRAP: return WRAP[nm]
+    if isinstance(a, ast.Constant):
+        if a.value is None: return ["ptr", ["void"]]
+        if isinstance(a.value, bool): return ["int", True, 4]
+        if isinstance(a.value, int): return ["int", True, 4]
+        if isinstance(a.value, (bytes,)): return ["ptr", ["chr"]]
+        if isinstance(a.value, float): return ["opaque", "python-float"]
+    return ["opaque", "?"]
+decls, calls, dynamic = [], [], []
+for m in mods:
+    mn = getattr(m, "__name__", "")
+    try:
+        src = inspect.getsource(m)
+        tree = ast.parse(src)
+    except Exception:
+        continue
+    def is_clib_attr(n):
+        return isinstance(n, ast.Attribute) and isinstance(n.value, ast.Name) and n.value.id == "clibrebound"
+    def walk(node, scope, parent_is_expr):
+        for ch in ast.iter_child_nodes(node):
+            sc = scope
+            if isinstance(ch, (ast.FunctionDef, ast.AsyncFunctionDef, ast.ClassDef)):
+                sc = scope + [ch.name]
+            if isinstance(ch, ast.Assign):
+                for t in ch.targets:
+                    if isinstance(t, ast.Attribute) and isinstance(t.value, ast.Attribute) and is_clib_attr(t.value):
+                        kd = None
+                        if t.attr in ("restype", "argtypes"):
+                            try:
+                                val = eval(compile(ast.Expression(ch.value), "<c18>", "eval"), vars(m),
+                                           {"cls": getattr(m, scope[0], None)} if scope else {})
+                                if t.attr == "restype":
+                                    kd = ["void"] if val is None else kind(val)
+                                else:
+                                    kd = ["arr", ["void"], 0]
+                                    kd = [kind(x) for x in val]
+                            except Exception as e:
+                                kd = ["opaque", "unevaluable:" + ast.unparse(ch.value)[:40]]
+                        decls.append(dict(fn=t.value.attr, module=mn, scope=".".join(scope), line=ch.lineno, attr=t.attr, kind=kd,
+                                          text=ast.unparse(ch.value)[:60]))
+            if isinstance(ch, ast.Call):
+                if is_clib_attr(ch.func):
+                    calls.append(dict(fn=ch.func.attr, module=mn, scope=".".join(scope), line=ch.lineno,
+                                      used=not isinstance(node, ast.Expr), args=[argkind(a) for a in ch.args],
+                                      argtext=[ast.unparse(a)[:30] for a in ch.args], starargs=any(isinstance(a, ast.Starred) for a in ch.args)))
+                elif isinstance(ch.func, ast.Name) and ch.func.id == "getattr" and ch.args and isinstance(ch.args[0], ast.Name) and ch.args[0].id == "clibrebound":
+                    dynamic.append(dict(module=mn, scope=".".join(scope), line=ch.lineno, text=ast.unparse(ch)[:80]))
+            walk(ch, sc, isinstance(ch, ast.Expr))
+    walk(tree, [], False)
+# a call is covered by a restype declaration made at import time (module level of any module) or earlier in the same function
+for cl in calls:
+    ds = [d for d in decls if d["fn"] == cl["fn"] and d["attr"] == "restype" and
+          (d["scope"] == "" or (d["module"] == cl["module"] and d["scope"] == cl["scope"] and d["line"] < cl["line"]))]
+    cl["restype"] = ds[-1]["kind"] if ds else None
+    elsewhere = [d for d in decls if d["fn"] == cl["fn"] and d["attr"] == "restype"]
+    cl["restype_elsewhere"] = bool(elsewhere) and not ds
+# ---- BINARY_WARNINGS (major, id, message)
+bw = getattr(sys.modules.get("rebound.simulation"), "BINARY_WARNINGS", None)
+out["binary_warnings"] = [[bool(a), int(b), str(c)] for a, b, c in bw] if bw is not None else None
+# ---- binary field descriptors: Python-visible list vs the raw C array read with the C-side layout
+try:
+    lay = json.load(open(sys.argv[2]))
+    from rebound.binary_field_descriptor import binary_field_descriptor_list
+    pl = binary_field_descriptor_list()
+    out["py_descriptors"] = [[int(x.type), int(x.dtype), x.name.decode("ascii"), int(x.offset), int(x.offset_N), int(x.element_size)] for x in pl]
+    base = ctypes.addressof(ctypes.c_char.in_dll(rebound.clibrebound, "reb_binary_field_descriptor_list"))
+    rawl = []
+    for i in range(5000):
+        q = base + i * lay["size"]
+        def rd(k, signed=False):
+            o, z = lay[k]
+            return int.from_bytes(ctypes.string_at(q + o, z), "little", signed=signed)
+        o, z = lay["name"]
+        nm = ctypes.string_at(q + o, z).split(b"\0")[0].decode("ascii")
+        rawl.append([rd("type"), rd("dtype"), nm, rd("offset"), rd("offset_N"), rd("element_size")])
+        if nm == "end":
+            break
+    out["c_descriptors"] = rawl
+except Exception as e:
+    out["descriptor_error"] = "%s: %s" % (type(e).__name__, e)
+out["ffi_decls"] = decls
+out["ffi_calls"] = calls
+out["ffi_dynamic"] = dynamic
 print(json.dumps(out))
 '''
 
 
-def py_side(d, workdir):
+def py_side(d, workdir, cs=None):
+    lay = {}
+    if cs and "reb_binary_field_descriptor" in cs["structs"]:
+        st = cs["structs"]["reb_binary_field_descriptor"]
+        lay = {m["name"]: [m["off"], m["size"]] for m in st["members"]}
+        lay["size"] = st["size"]
+    with open(os.path.join(workdir, "c18_bfd.json"), "w") as f:
+        json.dump(lay, f)
     pf = os.path.join(workdir, "c18_pyprobe.py")
     with open(pf, "w") as f:
         f.write(PY_PROBE)
     env = dict(os.environ)
     env.pop("PYTHONPATH", None)
-    p = subprocess.run([sys.executable, pf, d], capture_output=True, text=True, env=env, timeout=300)
+    p = subprocess.run([sys.executable, pf, d, os.path.join(workdir, "c18_bfd.json")], capture_output=True, text=True, env=env, timeout=300)
     if p.returncode != 0:
         raise Infra("python probe failed: " + (p.stderr or p.stdout)[-3000:])
     return json.loads(p.stdout.strip().splitlines()[-1])
@@ -700,6 +976,56 @@ def lean_options(cs, py, ref):
     return "\n".join(L)
 
 
+def lean_protos(cs, py):
+    def lk(ks):
+        return "[" + ", ".join(lkind(k) for k in ks) + "]"
+    L = [HDR + "import RV.Model.Layout\nset_option maxRecDepth 100000\nnamespace RV.Gen.C18\nopen RV.Layout\n"]
+    L.append("/-- every function declared in src/*.h (rebound.h first): ⟨name, return kind, parameter kinds⟩; `.opaque \"...\"` = variadic tail -/")
+    L.append("def cProtos : List Proto := [\n%s\n]\n" % ",\n".join(
+        "  ⟨%s, %s, %s⟩" % (lstr(n), lkind(v["ret"]), lk(v["args"])) for n, v in cs["protos"].items()))
+    L.append("/-- every function-pointer member of a C structure -/")
+    L.append("def cCallbacks : List Callback := [\n%s\n]\n" % ",\n".join(
+        "  ⟨%s, %s, %s, %s⟩" % (lstr(c["struct"]), lstr(c["member"]), lkind(c["ret"]), lk(c["args"])) for c in cs["callbacks"]))
+    L.append("/-- every CFUNCTYPE field of a ctypes class -/")
+    L.append("def pyCallbacks : List Callback := [\n%s\n]\n" % ",\n".join(
+        "  ⟨%s, %s, %s, %s⟩" % (lstr(c["cls"]), lstr(c["field"]), lkind(c["ret"]), lk(c["args"])) for c in py["callbacks"]))
+    pidx = {n: i for i, n in enumerate(cs["protos"])}
+    rd = [d for d in py["ffi_decls"] if d["attr"] == "restype"]
+    L.append("/-- every `clibrebound.f.restype = T` of the package (AST; T evaluated in its module) -/")
+    L.append("def pyRestypeDecls : List RestypeDecl := [\n%s\n]\n" % ",\n".join(
+        "  ⟨%s, %s, %s, %d⟩" % (lstr(d["fn"]), lstr("%s:%s" % (d["module"], d["scope"])), lkind(d["kind"]), pidx.get(d["fn"], 0)) for d in rd))
+    od = [d for d in py["ffi_decls"] if d["attr"] != "restype"]
+    L.append("/-- assignments to other attributes of a foreign function (`argtypes`, or a misspelt `restype`): (function, site, attribute) -/")
+    L.append("def pyOtherFnAttrs : List (Name × Name × Name) := [%s]\n" % ("\n" + ",\n".join(
+        "  (%s, %s, %s)" % (lstr(d["fn"]), lstr("%s:%s" % (d["module"], d["scope"])), lstr(d["attr"])) for d in od) + "\n" if od else ""))
+    L.append("/-- every `clibrebound.f(...)` call site of the package (AST) -/")
+    L.append("def pyCalls : List CallSite := [\n%s\n]\n" % ",\n".join(
+        "  ⟨%s, %s, %s, %s, %s, %s, %d⟩" % (lstr(c["fn"]), lstr("%s:%s" % (c["module"], c["scope"])), "true" if c["used"] else "false",
+                                           ("(some %s)" % lkind(c["restype"])) if c["restype"] is not None else "none", lk(c["args"]),
+                                           "true" if c["starargs"] else "false", pidx.get(c["fn"], 0)) for c in py["ffi_calls"]))
+    L.append("def cProtoCount : Nat := %d\ndef cCallbackCount : Nat := %d\ndef pyCallbackCount : Nat := %d\ndef pyRestypeDeclCount : Nat := %d\ndef pyCallCount : Nat := %d"
+             % (len(cs["protos"]), len(cs["callbacks"]), len(py["callbacks"]), len(rd), len(py["ffi_calls"])))
+    L.append("\nend RV.Gen.C18\n")
+    return "\n".join(L)
+
+
+def lean_descr(cs, py, ref):
+    L = [HDR + "import RV.Model.Layout\nset_option maxRecDepth 100000\nnamespace RV.Gen.C18\nopen RV.Layout\n"]
+    def rows(l):
+        return ",\n".join("  (%d, %d, %s, %d, %d, %d)" % (r[0], r[1], lstr(r[2]), r[3], r[4], r[5]) for r in l)
+    L.append("/-- reb_binary_field_descriptor_list of the loaded library, read as raw memory with the C-side layout: (type id, dtype, name, offset, offset_N, element_size) -/")
+    L.append("def cDescriptors : List DescrRow := [\n%s\n]\n" % rows(py.get("c_descriptors") or []))
+    L.append("/-- what rebound.binary_field_descriptor.binary_field_descriptor_list() returns -/")
+    L.append("def pyDescriptors : List DescrRow := [\n%s\n]\n" % rows(py.get("py_descriptors") or []))
+    L.append("/-- rebound.simulation.BINARY_WARNINGS: (major error, id, message) -/")
+    L.append("def pyWarnings : List (Bool × Int × Name) := [\n%s\n]\n" % ",\n".join(
+        "  (%s, %d, %s)" % ("true" if a else "false", b, lstr(c)) for a, b, c in (py.get("binary_warnings") or [])))
+    L.append("def cDescriptorCount : Nat := %d\ndef pyDescriptorCount : Nat := %d\ndef pyWarningCount : Nat := %d"
+             % (len(py.get("c_descriptors") or []), len(py.get("py_descriptors") or []), len(py.get("binary_warnings") or [])))
+    L.append("\nend RV.Gen.C18\n")
+    return "\n".join(L)
+
+
 def lean_ref(ref, findings):
     """committed reference data (ref/C18_*.json) + the exception list from findings/C18.jsonl"""
     L = [HDR.replace("the working tree of the code under test", "ref/C18_*.json and findings/C18.jsonl (committed in /verif)")
@@ -720,7 +1046,13 @@ def lean_ref(ref, findings):
     L.append("def floorClasses : Nat := %d\ndef floorPyRows : Nat := %d\ndef floorCRows : Nat := %d\ndef floorCStructs : Nat := %d\n"
              "def floorOptRows : Nat := %d\ndef floorEnumRows : Nat := %d\ndef floorFnOptRows : Nat := %d\n"
              % (fl["classes"], fl["py_rows"], fl["c_rows"], fl["c_structs"], fl["opt_rows"], fl["enum_rows"], fl["fnopt_rows"]))
-    ex_name, ex_shadow, ex_layout = [], [], []
+    wk = ref["opt"].get("warning_keywords", {})
+    L.append("/-- binary error codes: (enumerator, a phrase the Python message for that code must contain, lower case) -/")
+    L.append("def warnKeywords : List (Name × Name) := [\n%s\n]\n" % ",\n".join("  (%s, %s)" % (lstr(k), lstr(v)) for k, v in wk.items()))
+    L.append("def floorDescriptors : Nat := %d\ndef floorWarnings : Nat := %d\n" % (fl.get("descriptors", 0), fl.get("warnings", 0)))
+    L.append("def floorProtos : Nat := %d\ndef floorCallbacks : Nat := %d\ndef floorRestypeDecls : Nat := %d\ndef floorCalls : Nat := %d\n"
+             % (fl.get("protos", 0), fl.get("callbacks", 0), fl.get("restype_decls", 0), fl.get("calls", 0)))
+    ex_name, ex_shadow, ex_layout, ex_call = [], [], [], []
     for e in findings:
         if e.get("status", "known") != "known":
             continue
@@ -729,6 +1061,8 @@ def lean_ref(ref, findings):
                 ex_name.append("  (%s, %s, %s)" % (lstr(x["struct"]), lstr(x["py"]), lstr(x["c"])))
             elif x["kind"] == "layout":
                 ex_layout.append("  (%s, %s, %s, .%s)" % (lstr(x["struct"]), lstr(x["py"]), lstr(x["c"]), x["why"]))
+            elif x["kind"] == "call":
+                ex_call.append("  (%s, %s)" % (lstr(x["fn"]), lstr(x["site"])))
             elif x["kind"] == "shadow":
                 ex_shadow.append("  (%s, %s)" % (lstr(x["class"]), lstr(x["field"])))
     L.append("/-- known findings (findings/C18.jsonl, status known): name pairs that are NOT accepted renames but are\n"
@@ -739,6 +1073,8 @@ def lean_ref(ref, findings):
     L.append("def knownLayoutExceptions : List Bad := [%s]\n" % ("\n" + ",\n".join(ex_layout) + "\n" if ex_layout else ""))
     L.append("/-- known findings: ctypes fields shadowing a property of the same name: (class, field) -/")
     L.append("def knownShadowExceptions : List (Name × Name) := [%s]\n" % ("\n" + ",\n".join(ex_shadow) + "\n" if ex_shadow else ""))
+    L.append("/-- known findings: foreign call sites that are not sound: (function, module:scope) -/")
+    L.append("def knownCallExceptions : List (Name × Name) := [%s]\n" % ("\n" + ",\n".join(ex_call) + "\n" if ex_call else ""))
     L.append("end RV.Gen.C18\n")
     return "\n".join(L)
 
@@ -801,7 +1137,7 @@ def derive_classmap(ref, cs, py):
 def extract(d, workdir, findings=(), dwarf=False):
     ref = load_ref()
     cs = c_side(d, workdir, extra_tags={e["struct"] for e in ref["classmap"]})
-    py = py_side(d, workdir)
+    py = py_side(d, workdir, cs)
     if py.get("import_error") is None:
         derive_classmap(ref, cs, py)
     res = dict(c=cs, py=py, ref=ref, changed=[])
@@ -811,6 +1147,8 @@ def extract(d, workdir, findings=(), dwarf=False):
     if py.get("import_error") is None:
         files["C18LayoutPy.lean"] = lean_layout("py", py["classes"], "ctypes.Structure subclasses of the rebound package")
         files["C18Options.lean"] = lean_options(cs, py, ref)
+        files["C18Protos.lean"] = lean_protos(cs, py)
+        files["C18Descr.lean"] = lean_descr(cs, py, ref)
     for fn, content in files.items():
         if write_if_changed(os.path.join(gen, fn), content):
             res["changed"].append(fn)
